@@ -47,12 +47,14 @@ type c11Case struct {
 // C11: listing is complete, duplicate-free and ordered for any prefix / delimiter / page size.
 func runC11(run *common.Run) {
 	maxSize := run.N(4, 5)
-	run.Rule = fmt.Sprintf("sub-space 'exh' (enumerated COMPLETELY, exhaustive=true refers to it): every subset of size <= %d of the name universe %q x prefixes %q x delimiters %q, and of the nested sibling-directory universe %q x prefixes %q x delimiters %q (file store: the subsets representable as files), x maxResults 1..n+1 and unset x both stores, the token chain followed to its end (more than n+2 pages is a violation); 'rand': random larger subsets of either universe and of their union, and tree-shaped sets (8 names of depth 2-3 built from directory components that extend one another: v1, v1.2, v1-b, v10, v1!, ...) with prefixes / delimiters cut from the names; 'big' (thorough): random 12-name buckets over the alphabet {a,b,/,.,-,0} with prefixes/delimiters cut from the names. ; 'large' (both tiers, both stores): one bucket of 2300-2900 names (thorough: 3 buckets of up to 4600) - flat names, 12-30 directories of 25-45 files with sibling names sorting between them, a second flat group; group sizes drawn per seed so that the 1000th / 2000th name falls into different groups - uploaded in random order and listed with maxResults in {unset (default page size), 1 (first 60 pages), 7, 300, 999, 1000, 1001, 1200, 5000, one random size 2-60, one random size 400-2500} x 11 prefix/delimiter pairs (none, '/', prefixes cutting into the directory / flat groups, a multi-character delimiter, a prefix matching nothing), every chain followed to its end (small sizes: bounded number of pages, then the beginning of the answer is compared). Every exh / rand / big case first lists the bucket BEFORE anything was uploaded (every prefix x delimiter, maxResults unset, 1, 2: 200 and nothing) and, after the main grid, deletes its objects one by one in a case-dependent order (as given, reversed, rotated) until the bucket is empty: listed after the last delete (every fourth case after every delete) with every prefix x delimiter x maxResults in {unset, 1, n+1}, bucket metadata GET 200 before the first upload and after the last delete; every second case then uploads half of the names again and lists. 'churn' (both tiers, both stores): pools of 6 names from either universe or their union; 14-24 drawn uploads / deletes / overwrites of single objects, then deletes until nothing is left, so that the bucket runs empty through deletes of nested and top-level names several times and is filled again; after EVERY mutation the complete prefix x delimiter grid with maxResults in {unset, 1, 2, n+1}, and the bucket GET whenever it is empty. Oracle per pagination: concatenated items == model items, concatenated prefixes == model prefixes (each once, ascending), items+prefixes per page <= maxResults, every item's JSON == the metadata GET of that name; plus malformed tokens / maxResults => 400, missing bucket => 404, an existing bucket - also one that never held an object or lost its last object through a delete - => 200 for the listing (no items) and for its metadata GET. Case = one (name set, store). Non-trivial = at least one pagination of the case needed >= 2 pages and at least one listing returned a collapsed prefix (churn: the bucket was emptied by deletes at least twice and a pagination needed >= 2 pages); distinct by name set x store.", maxSize, c11Universe, c11Prefixes, c11Delims, c11Universe2, c11Prefixes2, c11Delims2)
+	run.Rule = fmt.Sprintf("sub-space 'exh' (enumerated COMPLETELY, exhaustive=true refers to it): every subset of size <= %d of the name universe %q x prefixes %q x delimiters %q, and of the nested sibling-directory universe %q x prefixes %q x delimiters %q (file store: the subsets representable as files), x maxResults 1..n+1 and unset x both stores, the token chain followed to its end (more than n+2 pages is a violation); 'rand': random larger subsets of either universe and of their union, and tree-shaped sets (8 names of depth 2-3 built from directory components that extend one another: v1, v1.2, v1-b, v10, v1!, ...) with prefixes / delimiters cut from the names; 'big' (thorough): random 12-name buckets over the alphabet {a,b,/,.,-,0} with prefixes/delimiters cut from the names. ; 'large' (both tiers, both stores): one bucket of 2300-2900 names (thorough: 3 buckets of up to 4600) - flat names, 12-30 directories of 25-45 files with sibling names sorting between them, a second flat group; group sizes drawn per seed so that the 1000th / 2000th name falls into different groups - uploaded in random order and listed with maxResults in {unset (default page size), 1 (first 60 pages), 7, 300, 999, 1000, 1001, 1200, 5000, one random size 2-60, one random size 400-2500} x 11 prefix/delimiter pairs (none, '/', prefixes cutting into the directory / flat groups, a multi-character delimiter, a prefix matching nothing), every chain followed to its end (small sizes: bounded number of pages, then the beginning of the answer is compared). Every exh / rand / big case first lists the bucket BEFORE anything was uploaded (every prefix x delimiter, maxResults unset, 1, 2: 200 and nothing) and, after the main grid, deletes its objects one by one in a case-dependent order (as given, reversed, rotated) until the bucket is empty: listed after the last delete (every fourth case after every delete) with every prefix x delimiter x maxResults in {unset, 1, n+1}, bucket metadata GET 200 before the first upload and after the last delete; every second case then uploads half of the names again and lists. 'long' (both tiers, both stores): 4 (thorough: 40) sets of 9 names of up to 1024 bytes - three nested directory components of 200-230 bytes, file components <= 240 bytes (legal file-store paths), total lengths 700, 765, 766, 767 and 1024 bytes, shorter names inside and beside the long directories - listed with maxResults unset, 1..n+1 x prefixes cut from the names (up to > 766 bytes, a whole name) x delimiters {none, '/', three bytes of a directory component}, every nextPageToken followed, so that page boundaries fall on every long name and on prefixes collapsed from them; then drained and refilled like the other cases. 'churn' (both tiers, both stores): pools of 6 names from either universe or their union; 14-24 drawn uploads / deletes / overwrites of single objects, then deletes until nothing is left, so that the bucket runs empty through deletes of nested and top-level names several times and is filled again; after EVERY mutation the complete prefix x delimiter grid with maxResults in {unset, 1, 2, n+1}, and the bucket GET whenever it is empty. Oracle per pagination: concatenated items == model items, concatenated prefixes == model prefixes (each once, ascending), items+prefixes per page <= maxResults, every item's JSON == the metadata GET of that name; plus malformed tokens / maxResults => 400, missing bucket => 404, an existing bucket - also one that never held an object or lost its last object through a delete - => 200 for the listing (no items) and for its metadata GET. Case = one (name set, store). Non-trivial = at least one pagination of the case needed >= 2 pages and at least one listing returned a collapsed prefix (churn: the bucket was emptied by deletes at least twice and a pagination needed >= 2 pages); distinct by name set x store.", maxSize, c11Universe, c11Prefixes, c11Delims, c11Universe2, c11Prefixes2, c11Delims2)
 	run.Assumptions = []string{
 		"listing model from the statement: bytewise ascending names, prefix filter, collapse at the first delimiter after the prefix",
 		"file store: only name sets representable as files (no name that is a directory of another, no trailing '/')",
 		"item metadata is compared as decoded JSON with the metadata GET of the same name through the same server",
 		"a bucket exists from its creation until it is deleted, whatever happens to its objects: an empty bucket lists as 200 without items and its metadata GET answers 200 (the reference model keeps buckets and objects apart)",
+		"object names of up to 1024 bytes are legal (the documented GCS limit); the emulator's own page tokens are well-formed whatever their length",
+		"a request that gets no answer within the client watchdog (20 s for PATCH / DELETE / compose / rewrite, 60 s otherwise) is reported as 'request not answered within <d>: <request>', the case is abandoned and its server not used again; after 3 such reports the run stops",
 		"a malformed token is one that is not base64 or whose bytes are not a decodable token ('////'); well-formed tokens are only ever taken from the server",
 	}
 	j := common.NewJournal("C11")
@@ -187,6 +189,18 @@ func runC11(run *common.Run) {
 			cases = append(cases, c11Case{"churn", i*2 + s, store, pool, pfx, dlm})
 		}
 	}
+	// 'long': names of 700-1024 bytes (1024 is the longest name GCS allows), several of them sharing directory components of
+	// 200-240 bytes, with total lengths on both sides of 766 bytes; page boundaries fall on every one of them
+	for i, n := 0, run.N(4, 40); i < n; i++ {
+		names, pfx, dlm := c11LongNames(run.Rand("C11.long", i))
+		for s, store := range drive.Stores {
+			ns := names
+			if store == "file" {
+				ns = makeRepresentable(names)
+			}
+			cases = append(cases, c11Case{"long", i*2 + s, store, ns, pfx, dlm})
+		}
+	}
 	if run.IsThorough() {
 		for i := 0; i < 500; i++ {
 			r := run.Rand("C11.big", i)
@@ -230,34 +244,30 @@ func runC11(run *common.Run) {
 	W := workers()
 	var aborted atomic.Bool
 	common.Parallel(W, W, func(w int) {
-		srvs := map[string]*drive.Server{}
-		defer func() {
-			for _, s := range srvs {
-				s.Close()
-			}
-		}()
+		srvs := srvPool{}
+		defer srvs.closeAll()
 		for ci := w; ci < len(cases); ci += W {
 			c := cases[ci]
 			if !run.Want(c.sub, c.idx) {
 				continue
 			}
-			if run.TooMany() {
+			if tooMany(run) {
 				aborted.Store(true)
 				return
 			}
-			if srvs[c.store] == nil {
-				s, err := drive.Start(c.store, "")
-				if err != nil {
-					run.Violation(c.sub, c.idx, "cannot start emulator: "+err.Error(), nil)
-					return
-				}
-				srvs[c.store] = s
+			srv, err := srvs.get(c.store) // (a server on which a request went unanswered is replaced)
+			if err != nil {
+				run.Violation(c.sub, c.idx, "cannot start emulator: "+err.Error(), nil)
+				return
 			}
 			j.Begin(w, fmt.Sprintf("C11 %s case=%d store=%s names=%q seed=%d", c.sub, c.idx, c.store, c.names, run.Seed))
 			if c.sub == "large" {
-				c11Large(run, srvs[c.store], c)
+				c11Large(run, srv, c)
 			} else {
-				c11Run(run, srvs[c.store], c, ci)
+				c11Run(run, srv, c, ci)
+			}
+			if srv.Wedged() {
+				unansweredReqs.Add(1) // the case reported it; counted towards stopping the run
 			}
 			j.End(w)
 		}
@@ -266,6 +276,22 @@ func runC11(run *common.Run) {
 		run.Exhaustive = true
 		run.Set("exhaustive_subspace", fmt.Sprintf("exh: %d (name set, store) cases = all subsets of size <= %d of each of the two 10-name universes on the memory store and all file-representable ones on the file store, each with all %d prefix x delimiter pairs and maxResults 1..n+1 + unset; rand/big are sampling", nExh, maxSize, len(c11Prefixes)*len(c11Delims)))
 	}
+}
+
+// clipName shortens a very long name for messages: its beginning, its length, its end.
+func clipName(n string) string {
+	if len(n) <= 120 {
+		return n
+	}
+	return fmt.Sprintf("%s...(%d bytes)...%s", n[:40], len(n), n[len(n)-30:])
+}
+
+func clipNames(ns []string) []string {
+	out := make([]string, len(ns))
+	for i, n := range ns {
+		out[i] = clipName(n)
+	}
+	return out
 }
 
 func contains(xs []string, x string) bool {
@@ -385,14 +411,17 @@ func c11Run(run *common.Run, srv *drive.Server, c c11Case, ci int) {
 				for _, mr := range sizes {
 					pages, trunc, err := cl.ListAll(b, pfx, dlm, mr, n+3)
 					listings++
-					desc := fmt.Sprintf("list prefix=%q delimiter=%q maxResults=%d", pfx, dlm, mr)
+					desc := fmt.Sprintf("list prefix=%q delimiter=%q maxResults=%d", clipName(pfx), dlm, mr)
 					if when != "" {
 						desc = when + ": " + desc
 					}
 					var mp []model.Page
 					for _, p := range pages {
 						mp = append(mp, model.Page{Items: p.Names, Prefixes: p.Prefixes, Token: p.Token})
-						desc += fmt.Sprintf(" | %d items=%q prefixes=%q token=%v", p.Status, p.Names, p.Prefixes, p.Token != "")
+						desc += fmt.Sprintf(" | %d items=%q prefixes=%q token=%v", p.Status, clipNames(p.Names), clipNames(p.Prefixes), p.Token != "")
+						if p.Status != 200 {
+							desc += fmt.Sprintf(" body=%s", clipS(p.Raw))
+						}
 					}
 					log = append(log, desc)
 					if len(log) > 12 {
@@ -525,6 +554,14 @@ func c11Run(run *common.Run, srv *drive.Server, c c11Case, ci int) {
 	// Drain: the objects are deleted one by one (order varies with the case) until the bucket is empty again. It is
 	// listed after every delete (every fourth case; the others after the last one) - a bucket emptied by deletes is
 	// still a bucket: 200 with no items, and its metadata GET answers 200 - then filled again and listed.
+	if c.sub == "long" {
+		for _, x := range c.names {
+			if len(x) >= 766 {
+				run.Count("long_names_of_766_bytes_or_more_listed", 1)
+			}
+		}
+		run.Count("long_name_sets", 1)
+	}
 	if c.sub != "large" {
 		order := append([]string(nil), c.names...)
 		switch ci % 3 {
@@ -595,6 +632,44 @@ func c11Run(run *common.Run, srv *drive.Server, c c11Case, ci int) {
 	if ci%997 == 5 {
 		run.Sample(map[string]any{"store": c.store, "names": c.names, "last_listings": log[max(0, len(log)-3):]})
 	}
+}
+
+// c11LongNames builds a set of 9 names of up to 1024 bytes: three nested directory components of 200-230 bytes (a fourth
+// of 240 for the longest name) and file components of at most 240 bytes, so that every name is also a legal path of the
+// file store (components <= 255 bytes, the metadata sidecar's suffix included). Total lengths: 700, 765, 766, 767, 1024,
+// two shorter names inside the long directories, a sibling of the first directory and one short top-level name.
+// Prefixes and delimiters are cut from the names (prefixes of more than 600 and more than 766 bytes, a whole name).
+func c11LongNames(r *common.Rand) (names, pfx, dlm []string) {
+	comp := func(n int) string {
+		b := make([]byte, n)
+		for i := range b {
+			b[i] = "abcdefghijklmnopqrstuvwxyz0123456789-._"[r.Intn(39)]
+		}
+		if b[0] == '.' {
+			b[0] = 'd'
+		}
+		return string(b)
+	}
+	d1, d2, d3 := comp(r.Range(200, 230)), comp(r.Range(200, 230)), comp(r.Range(200, 230))
+	base := d1 + "/" + d2 + "/" + d3 + "/"
+	tail := func(tag string, total int) string { // a file component that brings the name to exactly total bytes
+		n := total - len(base)
+		return tag + strings.Repeat(string("qrstuvw"[r.Intn(7)]), n-len(tag))
+	}
+	for _, t := range []struct {
+		tag   string
+		total int
+	}{{"f700-", 700}, {"f765-", 765}, {"f766-", 766}, {"f767-", 767}} {
+		names = append(names, base+tail(t.tag, t.total))
+	}
+	d4 := comp(240)
+	names = append(names, base+d4+"/"+strings.Repeat("m", 1024-len(base)-len(d4)-1)) // 1024 bytes
+	names = append(names, d1+"/"+d2+"/x", d1+"/"+d2+"-"+comp(100)+"/y", d1+"-sibling/"+comp(230)+"/"+comp(240), "z-short")
+	common.Shuffle(r, names)
+	pfx = []string{"", d1[:10], d1 + "/", base[:len(base)-1], base, base + "f76", names[r.Intn(len(names))], "zz-nothing"}
+	a := r.Intn(len(d2) - 4)
+	dlm = []string{"", "/", d2[a : a+3]}
+	return
 }
 
 // c11LargeNames builds a name set of 2300-2900 names (thorough: up to 4600) in three groups whose sizes are drawn
